@@ -16,12 +16,15 @@ Honest(lbl) == hist' = Append(hist, lbl) /\ adv' = 0
 Adversarial(lbl) == adv < MaxAdv /\ hist' = Append(hist, lbl) /\ adv' = adv + 1
 
 GenNext ==
-    \/ \E c \in Children :
+    \/ \E c \in Remote, r \in ReqNames :
+         \/ RWants(c, r) /\ Honest([a |-> "RWants", c |-> c, r |-> r])
+         \/ SyncOne(c, r) /\ Honest([a |-> "SyncOne", c |-> c, r |-> r])
+    \/ \E c \in Children \ Remote :
          /\ ChildWants(c)
          /\ Honest([a |-> IF want'[c] = {"i:ka"} THEN "Sync"
                           ELSE IF want'[c] = {"i:kb"} THEN "Roll"
                           ELSE "Activate", c |-> c])
-    \/ \E c \in Children : Sync(c) /\ Honest([a |-> "Sync", c |-> c])
+    \/ \E c \in Children \ Remote : Sync(c) /\ Honest([a |-> "Sync", c |-> c])
     \/ /\ MakeReq
        /\ IF open = None THEN Honest([a |-> "MakeReq"])
           ELSE Adversarial([a |-> "MakeReq"])    \* refused: one is open
